@@ -65,6 +65,25 @@ theorem fail_records (w : W) (e : WErr) (h : w.err = none) :
     (fail w e).1.err = some e ∧ (fail w e).1.st = none ∧ (fail w e).2 = e := by
   unfold fail; rw [h]; simp
 
+/-- an error returned by a caller-supplied write function (WriteField / WriteElement /
+ValueListWriter.Add) becomes the writer's sticky error: the call reports it, and so do every later
+write and the final End/Build -/
+theorem write_func_error_sticky (w : W) (s : WState) (idx idx' tag : Nat) (enc : Bytes)
+    (he : w.err = none) (hs : w.st = some s) :
+    (writeFail w idx).2 = .err (.at idx) ∧
+    (writeValue (writeFail w idx).1 idx' enc).2 = .err (.at idx) ∧
+    (field (writeFail w idx).1 idx' tag).2 = .err (.at idx) ∧
+    (element (writeFail w idx).1 idx').2 = .err (.at idx) ∧
+    (end_ (writeFail w idx).1 idx').2 = .err (.at idx) := by
+  have h1 : writeFail w idx = ({ w with st := none, err := some (.at idx) }, .err (.at idx)) := by
+    unfold writeFail failOut fail; simp [he, hs]
+  rw [h1]
+  refine ⟨rfl, ?_, ?_, ?_, ?_⟩
+  · rw [sticky_write _ (.at idx) rfl]
+  · rw [sticky_field _ (.at idx) rfl]
+  · rw [sticky_element _ (.at idx) rfl]
+  · rw [sticky_end _ (.at idx) rfl]
+
 /-- Free is safe in every state: it returns normally, leaves no state behind, and a second Free is
 again safe -/
 theorem free_safe (w : W) :
